@@ -252,6 +252,7 @@ func (f *Frame) inlineCall(fn *ssa.Function, args []T, pos token.Pos) ([]T, bool
 		sub.con = &Contract{Func: name, Checks: f.con.Checks, Loops: map[int]*LoopSpec{}}
 	}
 	sub.held = f.held
+	sub.recMeasure = f.recMeasure
 	sub.frameHook, sub.frameMapHook, sub.frameCallHook, sub.frameAppendHook = f.frameHook, f.frameMapHook, f.frameCallHook, f.frameAppendHook
 	res, st, path, ok := sub.run(args, f.st, f.curPath())
 	if !ok {
@@ -289,6 +290,33 @@ func (f *Frame) applyContract(v ssa.Value, con *Contract, fn *ssa.Function, args
 		if o != nil {
 			o.Props = r.Props
 			f.addUses(o, con.Uses, tr)
+		}
+	}
+	if len(con.Decreases) > 0 && len(f.recMeasure) > 0 {
+		// (mutual) recursion: the callee's measure is lexicographically below the caller's entry measure
+		if len(con.Decreases) != len(f.recMeasure) {
+			panic(trErr{fmt.Sprintf("%s: recursion measures of caller and callee %s have different lengths", f.topName(), name)})
+		}
+		var now []T
+		for _, d := range con.Decreases {
+			tr := &Translator{f: f, env: env, cur: pre, old: pre}
+			now = append(now, tr.expr(d.Expr).t)
+		}
+		var disj []T
+		for i := range now {
+			var conj []T
+			for j := 0; j < i; j++ {
+				conj = append(conj, Eq(now[j], f.recMeasure[j]))
+			}
+			conj = append(conj, Lt(now[i], f.recMeasure[i]), Le(Zero, f.recMeasure[i]))
+			disj = append(disj, And(conj...))
+		}
+		if o := f.oblige("term", "rec("+name+")", pos, Or(disj...)); o != nil {
+			o.Props = con.Decreases[0].Props
+			f.addUses(o, con.Uses, &Translator{f: f, env: env, cur: pre, old: pre})
+			if f.con != nil {
+				f.addUses(o, f.con.Uses, f.translator(f.cur, nil, f.st, nil))
+			}
 		}
 	}
 	ms := f.p.modsetOf(fn)
